@@ -249,8 +249,10 @@ func (e *Engine) ptrHeap(elem types.Type) (string, string) {
 	}
 	srt := e.sortOf(elem)
 	if _, isStruct := elem.Underlying().(*types.Struct); isStruct {
+		e.noteHeapType("H:"+sortKey(srt), elem)
 		return "H:" + sortKey(srt), "(Array Int " + srt + ")"
 	}
+	e.noteHeapType("H:"+typeKey(elem), elem)
 	// pointers to different Go types never alias (no unsafe): one heap per pointee type
 	return "H:" + typeKey(elem), "(Array Int " + srt + ")"
 }
@@ -263,6 +265,7 @@ func typeKey(t types.Type) string {
 func (e *Engine) elemHeap(elem types.Type) (string, string) {
 	srt := e.sortOf(elem)
 	// backing arrays of slices with different element types never alias: one heap per element type
+	e.noteHeapType("E:"+typeKey(elem), elem)
 	return "E:" + typeKey(elem), "(Array Int (Array Int " + srt + "))"
 }
 
@@ -386,4 +389,41 @@ func (fr *Frame) assumeGlobalInvs(s *State) {
 		fr.eng.assumptions["global invariant assumed at every call boundary ("+shortKey(gi.Pkg)+"): "+gi.C.Text] = true
 		s.assume(t)
 	}
+}
+
+func (e *Engine) noteHeapType(name string, t types.Type) {
+	if e.heapTypes == nil {
+		e.heapTypes = map[string]types.Type{}
+	}
+	if _, ok := e.heapTypes[name]; !ok {
+		e.heapTypes[name] = t
+	}
+}
+
+// heapWellTyped: every object (H:) / element (E:) stored in a heap is a well-typed Go value: integers are in
+// the range of their type, slice headers are well formed, byte strings are not absurdly long. The heap model
+// assumes this of the initial heap and of every heap returned by unknown code; writes are range-checked.
+func (e *Engine) heapWellTyped(name, sym string) string {
+	t := e.heapTypes[name]
+	if t == nil {
+		return ""
+	}
+	var v *Val
+	var binders, pat string
+	switch {
+	case strings.HasPrefix(name, "H:"):
+		v = &Val{T: t, S: "(select " + sym + " r)"}
+		binders, pat = "((r Int))", "(select "+sym+" r)"
+	case strings.HasPrefix(name, "E:"):
+		v = &Val{T: t, S: "(select (select " + sym + " r) i)"}
+		binders, pat = "((r Int) (i Int))", "(select (select "+sym+" r) i)"
+	default:
+		return ""
+	}
+	f := e.typeFact(v, "")
+	if f == "true" || isBigInt(t) {
+		return ""
+	}
+	e.assumptions["every value stored in the heap is well typed (integers within the range of their Go type, slice headers well formed): assumed of the initial heap and of heaps returned by unknown code; writes are range-checked"] = true
+	return fmt.Sprintf("\n(assert (forall %s (! %s :pattern (%s))))", binders, f, pat)
 }
